@@ -393,3 +393,6 @@ def replay(w):
     finally:
         b.cleanup()
     return res.violations
+
+
+RULE += ' Every value is also read back through SerializeToString / FromString and a size-delimited stream of two frames; datetimes entering a repeated field in place (append, item assignment) must encode and print like constructor-built ones.'
